@@ -83,7 +83,8 @@ QUICK = dict(cases=900, workers=2, timecap=45)
 THOROUGH = dict(cases=40000, workers=16, timecap=420)
 REQUIRED = {"diff_final": 600, "diff_shadow": 3000, "diff_read": 700, "inv_range": 12000, "inv_binwidth": 12000,
             "calib": 20000, "set_accepted": 350, "set_rejected": 40, "pixels_echo": 60,
-            "alias_judged": 60, "getter_write": 60, "calib_held": 100000, "calib_caller_write": 80}
+            "alias_judged": 60, "getter_write": 60, "calib_held": 100000, "calib_caller_write": 80,
+            "set_reassigned": 25}
 
 _S = {"in_monitor": False, "memo": None}
 
@@ -771,6 +772,10 @@ def _run(case, ctx):
     if case.get("init_form"):
         ctx.cls("input-form:" + case["init_form"])
     cname = type(inst).__name__
+    if kind == "czerny":
+        angles = [P["diffraction_angle"]] + [o["value"] for o in case["ops"] if o["op"] == "set" and o["attr"] == "diffraction_angle"
+                                             and not o.get("invalid")]
+        ctx.cls("ct-angles:" + "+".join(sorted({"obtuse" if a > 90 else "acute" for a in angles})))
     last_set = "construction"
     accepted = 0
     reads_since_set = 0
@@ -819,6 +824,36 @@ def _run(case, ctx):
                 last_set = "set-" + attr
             if not shadow("shadow copy after op %d" % step):
                 return
+        elif op["op"] == "reassign":
+            # edit the container in place (caller's object, or the object read back from the getter), then assign the
+            # SAME object again: a setter call whose value is the container's final contents
+            attr = op["attr"]
+            ctx.cls("set-on-%s-cache" % ("warm" if reads_since_set else "cold"))
+            reads_since_set = 0
+            obj = owned[0] if op["source"] == "owned" else getattr(inst, attr)
+            form = owned[1]
+            if op["source"] == "getter":
+                form = "list" if isinstance(obj, list) else "ndarray" if isinstance(obj, np.ndarray) else "tuple"
+            if op["edit"]["kind"] != "none":
+                if attr == "wavelength_to_pixel":
+                    new = _wl2pix_value(op["value"], form)
+                elif attr == "accommodated_spectra":
+                    new = _acc_value(op["value"], form)
+                else:
+                    new = _filters_value(op["value"], pool, form=form)
+                if not _write_in_place(ctx, obj, new, cname, attr):
+                    ctx.skip("reassign:container-not-editable-in-place:%s.%s" % (cname, attr))
+                    return
+            ctx.cls("reassign:%s:%s:%s" % (attr, op["source"], op["edit"]["kind"]))
+            _S["where"] = last_set = "reassign-same-object-" + attr
+            setattr(inst, attr, obj)
+            P[attr] = copy.deepcopy(op["value"])
+            owned = (obj, form if op["source"] == "owned" else "getter-object")
+            ctx.mon("set_accepted")
+            ctx.mon("set_reassigned")
+            accepted += 1
+            if not shadow("shadow copy after op %d" % step):
+                return
         elif op["op"] == "read":
             reads_since_set += 1
             fresh = build(kind, P, pool)
@@ -854,6 +889,15 @@ def _run(case, ctx):
                   "the instrument's pixel-edge arrays are not the (float) values of the arrays it was given",
                   monitor="pixels_echo", reported=_brief(got))
     _probe_returned_lists(ctx, build(kind, P, pool), cname)
+    if kind == "czerny":
+        # evidence only: the wording does not fix the bin count beyond the bound, so a differing count is no verdict
+        try:
+            plain = _S["Spectrometer"](inst.wavelength_to_pixel, inst.min_bins_per_pixel, inst.name)
+            same = (plain.min_wavelength, plain.max_wavelength, plain.spectral_bins) == (
+                inst.min_wavelength, inst.max_wavelength, inst.spectral_bins)
+            ctx.cls("ct-vs-plain-spectrometer-with-same-arrays:%s" % ("same-settings" if same else "different-settings"))
+        except ValueError:
+            ctx.cls("ct-vs-plain-spectrometer-with-same-arrays:not-comparable")
     if kind != "polychromator" and case.get("spectrum") is not None:
         check_calibration(ctx, inst, cname, case["spectrum"], pool, "final")
         extra = case.get("spectra_extra") or []
@@ -972,6 +1016,9 @@ def alias_phase(ctx, case, kind, inst, cname, P, pool, owned, obs_names):
     al = case["alias"]
     attr = ARRAY_ATTR[kind]
     obj, form = owned
+    if form == "getter-object" and al["kind"] != "getter":
+        ctx.skip("alias:container-is-the-instrument's-own-getter-object")
+        return
     _S["where"] = "inplace-mutation-of-" + attr
     if al["kind"] == "getter":
         if kind == "polychromator":
@@ -1170,40 +1217,43 @@ def _gen_spectrum(rng, small=False):
 # -- Czerny-Turner domain (used by the generator only; never by an oracle) ----------------------
 
 def _ct_in_domain(P):
+    """Generator-side only (never an oracle): every pixel width of the scheme is real and positive.  The edge
+    recurrence is followed pixel by pixel because the width falls with wavelength for acute diffraction angles and
+    GROWS for obtuse ones."""
     m = int(P["diffraction_order"])
     g, fl, dx = P["grating"], P["focal_length"], P["pixel_spacing"]
     th = math.radians(P["diffraction_angle"])
-
-    def res(wl):
-        p = 0.5 * m * g * wl
-        d = math.cos(th) ** 2 - p * p
-        if d <= 0.02:
-            return None
-        return dx * (math.sqrt(d) - p * math.tan(th)) / (m * fl * g)
-
+    c2, tn, pre = math.cos(th) ** 2, math.tan(th), dx / (m * fl * g)
     for wl0, pixels in P["accommodated_spectra"]:
-        r0 = res(wl0)
-        if r0 is None or r0 <= 0:
-            return False
-        r1 = res(wl0 + int(pixels) * r0)       # resolution decreases with wavelength: upper bound of the last edge
-        if r1 is None or r1 < 0.2 * r0:
-            return False
-        if r0 < 1e-7 * wl0:
+        wl = float(wl0)
+        rmin, rmax = float("inf"), 0.0
+        for _ in range(int(pixels)):
+            pp = 0.5 * m * g * wl
+            d = c2 - pp * pp
+            if d <= 1e-4:
+                return False
+            r = pre * (math.sqrt(d) - pp * tn)
+            if not (r > 1e-7 * wl) or r > 50.0:
+                return False
+            rmin, rmax = min(rmin, r), max(rmax, r)
+            wl += r
+        if rmin < 0.02 * rmax or wl > 5000.0:
             return False
     return True
 
 
 def _gen_ct_value(rng, attr):
     if attr == "diffraction_order":
-        return [1, 1, 2, 3, 2.0, 1.9][int(rng.integers(6))]
+        return [1, 1, 2, 3, 2.0, 1.9, 4, 5][int(rng.integers(8))]
     if attr == "grating":
-        return _f(10 ** rng.uniform(np.log10(3e-4), np.log10(2.4e-3)))
+        return _f(10 ** rng.uniform(np.log10(1e-4), np.log10(3.6e-3)))           # 100 .. 3600 lines / mm
     if attr == "focal_length":
-        return _f(10 ** rng.uniform(np.log10(2e8), np.log10(2e9)))
+        return _f(10 ** rng.uniform(np.log10(1e8), np.log10(4e9)))
     if attr == "pixel_spacing":
-        return _f(10 ** rng.uniform(np.log10(5e3), np.log10(3e4)))
+        return _f(10 ** rng.uniform(np.log10(2e3), np.log10(6e4)))
     if attr == "diffraction_angle":
-        return _f(rng.uniform(2, 40))
+        # whole legal domain: acute AND obtuse angles between the incident and the diffracted beam
+        return _f(rng.uniform(1, 85) if rng.random() < 0.5 else rng.uniform(95, 179))
     if attr == "accommodated_spectra":
         k = int(rng.integers(1, 6))
         if rng.random() < 0.3:
@@ -1214,7 +1264,7 @@ def _gen_ct_value(rng, attr):
             if rng.random() < 0.03:
                 px = int(rng.integers(300, 601))
             pxv = float(px) if rng.random() < 0.1 else px
-            out.append([_f(np.round(rng.uniform(200, 900), int(rng.integers(0, 3)))), pxv])
+            out.append([_f(np.round(rng.uniform(150, 1100), int(rng.integers(0, 3)))), pxv])
         return out
     if attr == "min_bins_per_pixel":
         return _gen_bins_per(rng)
@@ -1282,6 +1332,121 @@ WL2PIX_FORMS = ["list", "tuple", "tuple-of-lists", "list-of-tuples", "int-arrays
 SEQ_FORMS = ["list", "tuple", "ndarray"]
 
 
+STRUCT_FORMS = {"wavelength_to_pixel": ("list", "int-arrays", "slices", "list-of-tuples", None),
+                "accommodated_spectra": ("list",), "filters": ("list", None)}
+VALUE_FORMS = {"wavelength_to_pixel": ("tuple", "tuple-of-lists", "ndarray-2d"), "accommodated_spectra": ("ndarray",),
+               "filters": ("ndarray",)}
+
+
+def _edit_model(attr, value, edit):
+    """The container's contents (model representation) after the in-place edit; None when the edit does not apply."""
+    v = copy.deepcopy(value)
+    k = edit["kind"]
+    if k == "none":
+        return v
+    if k == "shift":
+        d = int(edit["delta"])
+        if attr == "wavelength_to_pixel":
+            return [{"kind": "explicit", "edges": [float(x) for x in expand_layout(l) + d]} for l in v]
+        if attr == "accommodated_spectra":
+            return [[a + d, b] for a, b in v]
+        return None
+    if k == "append":
+        return v + [copy.deepcopy(edit["item"])]
+    if k == "delete":
+        if len(v) < 2:
+            return None
+        del v[int(edit["index"]) % len(v)]
+        return v
+    if k == "replace":
+        v[int(edit["index"]) % len(v)] = copy.deepcopy(edit["item"])
+        return v
+    raise ValueError(k)
+
+
+def _write_in_place(ctx, obj, new, cname, attr):
+    """Give the existing container `obj` the contents of `new` (same form) without creating a new top-level object."""
+    if isinstance(obj, list):
+        obj[:] = list(new)
+        return True
+    if isinstance(obj, np.ndarray):
+        new = np.asarray(new)
+        if obj.shape != new.shape or not _unlock(ctx, obj, cname, attr):
+            return False
+        obj[...] = new
+        return True
+    if isinstance(obj, tuple) and len(obj) == len(new):
+        for item, n in zip(obj, new):
+            if isinstance(item, np.ndarray):
+                n = np.asarray(n)
+                if item.shape != n.shape or not _unlock(ctx, item, cname, attr):
+                    return False
+                item[...] = n
+            elif isinstance(item, list):
+                item[:] = list(n)
+            else:
+                return False
+        return True
+    return False
+
+
+def _insert_reassigns(rng, case):
+    """History step 'edit the container in place, then assign THE SAME OBJECT again' (also the object read back from the
+    getter) for the container-valued parameter; the model value after the step is the container's final contents."""
+    kind = case["kind"]
+    attr = ARRAY_ATTR[kind]
+    P = copy.deepcopy(case["init"])
+    form = case.get("init_form")
+    ops, out, n = case["ops"], [], 0
+    for pos in range(len(ops) + 1):
+        if n < 2 and rng.random() < 0.09:
+            source = "getter" if rng.random() < 0.3 else "owned"
+            editable_struct = form in STRUCT_FORMS[attr]
+            editable_value = form in VALUE_FORMS[attr]
+            if source == "getter" and not (kind == "czerny" and form in ("list", "ndarray")):
+                editable_struct = editable_value = False          # read-only arrays / tuples come back from the getters
+            kinds = ["none"]
+            if editable_struct:
+                kinds = ["append", "delete", "replace", "shift"] if attr != "filters" else ["append", "delete", "replace"]
+            elif editable_value:
+                kinds = ["shift"] if attr != "filters" else ["replace"]
+            edit = {"kind": kinds[int(rng.integers(len(kinds)))], "index": int(rng.integers(0, 1000)),
+                    "delta": [1, 2, 5, 17][int(rng.integers(4))]}
+            if edit["kind"] in ("append", "replace"):
+                if attr == "wavelength_to_pixel":
+                    edit["item"] = _gen_wl2pix(rng, False)[0]
+                    if edit["kind"] == "replace" and form == "ndarray-2d":
+                        edit["kind"] = "shift"
+                elif attr == "accommodated_spectra":
+                    edit["item"] = _gen_ct_value(rng, attr)[0]
+                else:
+                    edit["item"] = int(rng.integers(len(case["filters_pool"])))
+            new = _edit_model(attr, P[attr], edit)
+            ok = new is not None
+            if ok and kind == "czerny":
+                Q = dict(P)
+                Q[attr] = new
+                ok = _ct_in_domain(Q)
+                for later in ops[pos:]:
+                    if not ok or (later["op"] == "set" and later["attr"] == attr and not later.get("invalid")):
+                        break
+                    if later["op"] == "set" and not later.get("invalid"):
+                        Q[later["attr"]] = later["value"]
+                        ok = _ct_in_domain(Q)
+            if ok:
+                out.append({"op": "reassign", "attr": attr, "source": source, "edit": edit, "value": new, "form": form})
+                P[attr] = new
+                n += 1
+        if pos < len(ops):
+            op = ops[pos]
+            out.append(op)
+            if op["op"] == "set" and not op.get("invalid"):
+                P[op["attr"]] = op["value"]
+                if op["attr"] == attr:
+                    form = op.get("form")
+    case["ops"] = out
+
+
 def _gen_reads(rng, obs_names):
     k = int(rng.integers(1, 5))
     if rng.random() < 0.15:
@@ -1332,7 +1497,7 @@ def gen_case(rng, tier):
         case["spectra_extra"] = [_gen_spectrum(rng, small=True), _gen_spectrum(rng, small=True)]
     elif kind == "czerny":
         obs = SPEC_OBS
-        for _try in range(200):
+        for _try in range(400):
             P = {a: _gen_ct_value(rng, a) for a in CT_ATTRS}
             if _ct_in_domain(P):
                 break
@@ -1411,6 +1576,7 @@ def gen_case(rng, tier):
                "filter": int(rng.integers(0, 1000)), "action": ["append", "pop", "replace"][int(rng.integers(3))]}
         case["alias"] = {"kind": "getter" if (kind != "polychromator" and rng.random() < 0.25) else "caller", "how": how}
     case["ops"] = ops
+    _insert_reassigns(rng, case)
     case["final_order"] = [obs[int(i)] for i in rng.permutation(len(obs))]
     return case
 
